@@ -164,6 +164,20 @@ func (p *Program) collectFuncs() {
 		f := p.ModFuncs[i]
 		for _, b := range f.Blocks {
 			for _, ins := range b.Instrs {
+				if mi, ok := ins.(*ssa.MakeInterface); ok {
+					// methods of instantiated generic module types that are only ever called through an
+					// interface by external code (e.g. lessComparer[Key].Compare handed to immutable)
+					if n, ok := types.Unalias(mi.X.Type()).(*types.Named); ok && n.TypeArgs().Len() > 0 && n.Obj().Pkg() != nil && isModPkgPath(n.Obj().Pkg().Path()) {
+						for _, t := range []types.Type{n, types.NewPointer(n)} {
+							ms := p.SSA.MethodSets.MethodSet(t)
+							for k := 0; k < ms.Len(); k++ {
+								if g := p.SSA.MethodValue(ms.At(k)); g != nil && g.Synthetic == "" || g != nil && strings.HasPrefix(g.Synthetic, "instance") {
+									add(g)
+								}
+							}
+						}
+					}
+				}
 				for _, op := range ins.Operands(nil) {
 					if op == nil || *op == nil {
 						continue
